@@ -23,6 +23,7 @@ RULE = (
     "(metamorphic): snapshot after the edit differs from the one before only at the edited path + declared couplings and shows the new value; "
     "snapshot(load(save(edited))) == snapshot(edited). every fixture is additionally swept deterministically over every attribute of the common catalogue (project fields, common module fields, every controller at both range ends / two members, every option, one binding per controller; quick: every 6th attribute) and with 12 (quick) / 60 (thorough) generated edits. distinct = case hash; "
     "non-trivial = the edit changed the value"
+    ' Also (added while the seeded-change rounds of DESIGN section 9 ran): Also: edits that rebind chunk objects before an element edit, user-defined controller values (direct and through the label alias) on loaded MetaModules.'
 )
 ASSUMPTIONS = [
     "declared couplings: exclusive options reset their partner; MultiCtl.value fans out to linked targets; an embedded controller edit may update "
